@@ -289,7 +289,8 @@ def iter_descr(b, t):
 SINK_RX = None
 SKIP_REVIEWED = {
     "Property": {("<Value>::is_null", "<Value>::evaluate"): "a declaration whose value is null is omitted (Sass semantics)"},
-    "Comment": {("<Format>::is_compressed", "<Scope>::get_format"): "loud comments are dropped in compressed style (which ones: C36)"},
+    "Comment": {("<Format>::is_compressed", "<Scope>::get_format"): "loud comments are dropped in compressed style (which ones: C36)",
+                ("<str>::starts_with", "<CssString>::take_value"): "in compressed style a comment whose text does not start with `!` is dropped (the style test itself is C36's rule)"},
     "Content": {("<Scope>::get_content",): "@content without a passed block renders nothing"},
     "Import": {("<Iter<'a, T> as Iterator>::next", "<&'a [T] as IntoIterator>::into_iter"): "no more names in the @import list"},
     "Each": {("<IntoIter<T, A> as Iterator>::next", "<Vec<T, A> as IntoIterator>::into_iter"): "no more elements"},
